@@ -30,8 +30,10 @@ PwlSpace ==
 LinSpace ==
   {[kind |-> "linear", mono |-> m, mdom |-> md, rdom |-> rd, hasBounds |-> hb, lo |-> <<0, 0, 0>>, hi |-> h, norm |-> nm] :
      m \in {<<1, 1, 0>>, <<1, -1, 1>>, <<-1, -1, 0>>, <<0, 0, 0>>}, md \in {N0, << <<0, 1>> >>, << <<0, 1>>, <<1, 0>> >>, << <<0, 2>> >>},
-     rd \in {N0, << <<0, 1>> >>, << <<1, 0>>, <<0, 1>> >>}, hb \in {<<TRUE, TRUE, TRUE>>, <<FALSE, FALSE, FALSE>>, <<TRUE, FALSE, TRUE>>},
-     h \in {<<1, 2, 1>>, <<1, 0, 1>>, <<-1, 1, 1>>}, nm \in {0, 1, 2}}
+     rd \in {N0, << <<0, 1>> >>, << <<1, 0>> >>, << <<1, 0>>, <<0, 1>> >>}, hb \in {<<TRUE, TRUE, TRUE>>, <<FALSE, FALSE, FALSE>>, <<TRUE, FALSE, TRUE>>},
+     \* input_max (input_min is 0): all ranges non-empty; an empty range on input 1, on input 0, on input 2 (an input
+     \* outside every dominance pair); a reversed range
+     h \in {<<1, 2, 1>>, <<1, 0, 1>>, <<0, 2, 1>>, <<1, 2, 0>>, <<-1, 1, 1>>}, nm \in {0, 1, 2}}
 CatSpace ==
   {[kind |-> "cat", nb |-> n, pairs |-> p, hasMin |-> b[1], omin |-> b[2], hasMax |-> b[3], omax |-> b[4]] :
      n \in {2, 3}, p \in {N0, << <<0, 1>> >>, << <<0, 1>>, <<1, 0>> >>, << <<0, 1>>, <<1, 2>>, <<2, 0>> >>, << <<0, 1>>, <<1, 2>> >>, << <<0, 3>> >>},
